@@ -7,7 +7,7 @@ import random as _random
 from hypothesis import strategies as st
 
 from .. import molgen
-from ..core import hyp_run
+from ..core import hyp_run, direct_run
 from ..oracles import mcb
 
 ID = 'C05'
@@ -18,7 +18,8 @@ RULE = ('aromatic / aromatisable molecules: corpus, curated, repository literals
         'no valence error, same connectivity/formula/charges/radicals/per-atom H, idempotence, thiele(kekule(x)) == x), all '
         'enumerated Kekule forms valid, distinct, equal in number to the perfect matchings (pure C / pyridine-N systems) and '
         'aromatising to one form, atom-wise equality of the aromatic form under renumbering, RDKit resonance-equivalence. '
-        'the same conversions on one object with drawn reads in between; canonicalize(keep_kekule=True) against canonicalize(). non-trivial = >= 1 aromatic ring; distinct by canonical string')
+        'the same conversions on one object with drawn reads in between; canonicalize(keep_kekule=True) against canonicalize(). non-trivial = >= 1 aromatic ring; distinct by canonical string'
+        '; also: ylidene shard: all pairs of 20 ring ylidene fragments joined by an exocyclic double bond (indigoid, fulvalene, tetrathiafulvalene type). the curated witness list is swept completely on every run.')
 ASSUMPTIONS = ['per-atom hydrogen clause asserted with thiele(fix_tautomers=False); the default (True) moves H between ring N atoms by design',
                'enumerated-forms clause not claimed for blocks with an unsaturated four-membered ring (recorded gap), counted',
                'ring systems whose minimum cycle basis is not unique are routed to the known finding on SSSR-dependent aromatisation',
@@ -27,10 +28,39 @@ ASSUMPTIONS = ['per-atom hydrogen clause asserted with thiele(fix_tautomers=Fals
 
 def shards(tier, seed):
     n = 700 if tier == 'quick' else 8000
-    return [dict(shard=i, n=n) for i in range(12)]
+    return [dict(shard=i, n=n) for i in range(12)] + [dict(shard='ylidene', n=1 if tier == 'quick' else 4), dict(shard='curated')]
+
+
+# ring systems joined by an exocyclic double bond (indigoid dyes, isoindigo / indirubin, fulvalenes, tetrathiafulvalenes, aurones,
+# merocyanines): (ring atoms after the ylidene carbon, written so that {1} closes onto it)
+YLIDENES = ['C(=O)Nc{2}ccccc{1}{2}', 'C(=O)c{2}ccccc{2}N{1}', 'C(=O)c{2}ccccc{2}O{1}', 'C(=O)c{2}ccccc{2}S{1}', 'C(=O)c{2}ccccc{2}C{1}',
+            'C=CC=C{1}', 'C=COC=C{1}', 'c{2}ccccc{2}-c{2}ccccc{1}{2}', 'c{2}ccccc{2}C(=O)c{2}ccccc{1}{2}', 'C=CC=CC=C{1}',
+            'C(=O)N(C)N=C{1}C', 'C(=O)NC(=S)S{1}', 'C(=O)NC(=O)NC{1}=O', 'SC=CS{1}', 'Sc{2}ccccc{2}S{1}',
+            'c{2}ccccc{2}Sc{2}ccccc{1}{2}', 'C=CC(=O)C=C{1}', 'c{2}ccccc{2}N(C)c{2}ccccc{1}{2}', 'C(=O)Nc{2}ncccc{1}{2}',
+            'C(=O)c{2}cc(Br)ccc{2}N{1}']
+PARTNERS = ['C(C)C', 'Cc{1}ccccc{1}', 'Cc{1}ccc(cc{1})N(C)C', 'CC=Cc{1}ccccc{1}', 'Cc{1}ccco{1}', 'Cc{1}c[nH]c{2}ccccc{1}{2}']
+
+
+def ylidene_cases(seed, rounds):
+    def text(t, base):
+        return t.replace('{1}', f'%{base + 1}').replace('{2}', f'%{base + 2}')
+    k = 0
+    for r in range(rounds):
+        for a in YLIDENES:
+            for b in YLIDENES:
+                k += 1
+                yield {'mol': {'k': 'smi', 's': f'C%11(=C%21{text(b, 20)}){text(a, 10)}'}, 'seed': seed * 7919 + k, 'ylidene': True}
+            for b in PARTNERS:
+                k += 1
+                yield {'mol': {'k': 'smi', 's': f'C%11(={text(b, 20)}){text(a, 10)}'}, 'seed': seed * 7919 + k, 'ylidene': True}
 
 
 def run_shard(shard, tier, seed):
+    if shard['shard'] == 'curated':
+        # the curated witnesses are swept completely on every run (drawn cases meet a given witness only now and then)
+        return direct_run(ID, [{'mol': {'k': 'smi', 's': s}, 'seed': seed * 7919 + i} for i, s in enumerate(molgen.curated())], check_case)
+    if shard['shard'] == 'ylidene':
+        return direct_run(ID, ylidene_cases(seed, shard['n']), check_case)
     strat = st.fixed_dictionaries({
         'mol': st.one_of(ring_systems(), ring_systems(), molgen.mol_specs(max_atoms=14, corpus_w=6, curated_w=3, graph_w=3,
                                                                            literal_w=2, sym_w=1)),
